@@ -307,7 +307,7 @@ def symptomsHost (final o c : Ctl) (host : String) : List Symptom :=
       else if cl.isEmpty then
         -- same (address, port name), other port number: sibling slices with different port lists, and the first-wins
         -- deduplication of `get` picked another slice - a by-product of an endpoint missing / kept elsewhere
-        (if p.1.port ≠ p.2.port then [{ cls := "dup", host := host, obj := p.1.addr, epAddr := "" }]
+        (if p.1.port ≠ p.2.port then [{ cls := "dup", host := host, obj := p.1.addr, addr := p.1.addr, epAddr := "" }]
          else [{ cls := "content-other", host := host, obj := p.1.addr, epAddr := p.1.addr }])
       else cl
     let a := if m.isEmpty ∧ x.isEmpty ∧ d.isEmpty ∧ sortStrings vo.sas.eraseDups ≠ sortStrings vc.sas.eraseDups
@@ -468,7 +468,14 @@ def explains (final : Ctl) (ops : List Op) (sy : Symptom) (cause : Cause) : Bool
       cl == "waiting-address-differs-from-pod-ip") && (ob == sy.pod || ob == sy.pod2) ||
     -- ... as does a duplicate of the address without targetRef
     (cl == "untargeted-endpoint-pod-lookup-stale" && sy.addr ≠ "" && ob == sy.addr)
+  -- ... or of a pod that a slice of the hostname targets at this very address (sibling slices: the first-wins choice of
+  -- `get` shows the stale endpoint of one slice on one side and the fresh endpoint of another slice on the other)
+  let stalePod := stalePod || ((cl == "endpoint-of-deleted-pod-kept" || cl == "identity-of-replaced-pod" ||
+      cl == "waiting-address-differs-from-pod-ip") && sy.addr ≠ "" &&
+    final.slices.any fun sl => sl.host == sy.host && sl.addrPairs.any fun ea =>
+      ea.2 == sy.addr && (match ea.1.target with | some t => t.1 ++ "/" ++ t.2 == ob | none => false))
   late && match sy.cls with
+  | "dup" => stalePod
   | "health" => (cl == "health-built-before-service-known" && ob == sy.host) || stalePod
   | "locality" => (cl == "locality-built-before-node-change" && ob == sy.obj) || stalePod ||
       (cl == "pod-of-another-namespace-updated-after-slice-built" && (ob == sy.pod || ob == sy.pod2))
@@ -497,7 +504,9 @@ def classify (final o c : Ctl) (ops : List Op) (causes : List Cause) : List Stri
   -- a `dup` symptom is explained by whatever explains another symptom of the same hostname
   let dups := (sys.filter (·.cls == "dup")).filterMap fun sy =>
     if main.any (fun m => m.host == sy.host && (causes.find? (explains final ops m)).isSome) then none
-    else some "unexplained:dup"
+    else match causes.reverse.find? (explains final ops sy) with
+      | some cause => some cause.1
+      | none => some "unexplained:dup"
   sortStrings (out ++ dups).eraseDups
 
 /-- classify stream state: the model state and the operations of the case so far (reversed) -/
